@@ -20,7 +20,7 @@ CONSTANTS N,          \* backend ids 1..N ("b1".."bN"); the pool starts with the
           Win, Thr, MaxHold,
           Clients,    \* client ids; HashOf[c] abstracts FNV-1a of the address
           HashOf,
-          PassiveOn, ActiveOn, AdminOn, MarkOn, Outcomes
+          PassiveOn, ActiveOn, AdminOn, MarkOn, BadOpsOn, Outcomes
 
 VARIABLES strat, order, flag, age, pfail, rr, cw, infl, probe, mirror, evs
 
@@ -109,7 +109,7 @@ Req(c, o) ==
      ELSE LET b == f.b
               failed == o \in {"fail", "abort"}
               \* an aborted response is recorded as a 502 and counts like any failed response
-              cnt == PassiveOn /\ o \in {"fail", "abort"}
+              cnt == PassiveOn /\ o \in {"fail", "abort", "cancel"}
               trip == cnt /\ pfail[b] + 1 >= Thr
               e == Eject(f.s.flag, age, f.s.mirror, b)
           IN
@@ -178,7 +178,7 @@ Remove(b) == /\ AdminOn /\ b \in SeqToSet(order) /\ Len(order) > 1 /\ infl[b] = 
 
 \* operations that must fail (or be no-ops) and change nothing: adding a name that is already
 \* configured, an unparsable address, an unknown strategy, removing an absent name
-BadOp(k, b) == /\ AdminOn
+BadOp(k, b) == /\ AdminOn /\ BadOpsOn
                /\ k \in {"add_dup", "add_badurl", "strategy_unknown", "remove_absent"}
                /\ (k = "add_dup" => b \in SeqToSet(order))
                /\ (k \in {"remove_absent", "add_badurl"} => b \notin SeqToSet(order))
